@@ -111,6 +111,7 @@ class Contract:
         self.snapshots = dict(kw.pop("snapshots", {}))  # label -> callee simple name (heap snapshot after its first call)
         self.variant = kw.pop("variant", None)  # termination measure for recursive calls
         self.ensures_locals = _named(kw.pop("ensures_locals", {}), "lpost")  # postconditions that may mention final locals
+        self.ensures_exc_locals = _named(kw.pop("ensures_exc_locals", {}), "xlpost")  # the same for exceptional exits (locals as the raise left them)
         self.variant_id = kw.pop("variant_id", None)  # a second contract on the same function (e.g. an assumed view used by one caller)
         self.shards = kw.pop("shards", 1)  # split this function's obligations over several worker processes
         self.axioms = dict(kw.pop("axioms", {}))  # assumed facts (each listed in the evidence as trusted)
